@@ -26,7 +26,7 @@ var verifPrefixIDs = []prefix.PrefixID{prefix.Min, prefix.GetLong, prefix.TLSAle
 func VerifC04Flights() {
 	verifnd.Sequential()
 	k := verifnd.Choose("case", 10) // sharded: transport/prefix x station key used by the client
-	which, keyIdx := k%5, k/5      // 0 = min, 1-4 = prefix ids
+	which, keyIdx := k%5, k/5       // 0 = min, 1-4 = prefix ids
 	logClientIP = false
 	verifnd.LoopBound("crypto/rand.Int", 2)
 	rm := cj.VerifNewManager()
